@@ -15,6 +15,16 @@
 //   - receiver / struct fields read -> parameters named by their path; fields
 //     assigned -> also returned (function returns ret × written fields tuple).
 //
+//   - tagless `switch [init;] { case a, b: … default: … }` -> if / else-if chain (`,` = `||`);
+//     `return <text>` -> the Int code the target's `returns` table gives to that text, running off
+//     the end -> `end` code; early returns (an `if` of which only some branches return) duplicate
+//     the continuation into both branches; `p == nil` on a path typed "ptr" -> Bool parameter
+//     `p_notnil`; types "enum:<T>" -> Int with comparisons only; package-level integer constants
+//     (literals, iota, + - * <<) are read from the package's source; expressions listed in `exprs`
+//     (opaque calls) become parameters; statements listed in `skip` (locks, bookkeeping) are dropped,
+//     and every `exprs` / `skip` entry must be used; `cond_of` / `arg_of` translate one `if`
+//     condition / one call argument. See ext.go.
+//
 // Anything outside the subset is an error: "translator obligation broken".
 package main
 
@@ -45,6 +55,28 @@ type Target struct {
 	Result []string `json:"result,omitempty"`
 	// Params for sliced bodies: free variables, with types
 	Free []string `json:"free,omitempty"`
+	// Returns: [match, code] pairs: a `return` whose (whitespace-normalised) result text equals match, or
+	// contains match[1:] when match starts with "~", yields the Int code. When given, every return
+	// must match exactly one entry. End: the code when the body runs off its end.
+	Returns [][2]string `json:"returns,omitempty"`
+	End     string      `json:"end,omitempty"`
+	// Exprs: normalised source text of an (opaque) expression -> "name:type": it becomes a parameter.
+	Exprs map[string]string `json:"exprs,omitempty"`
+	// Skip: statements (normalised text) that are dropped. Every entry must occur.
+	Skip []string `json:"skip,omitempty"`
+	// CondOf: translate only the condition of the unique `if` statement whose text starts with this.
+	// CondCount (default 1) is the number of statements the marker must match, CondNth (0-based) picks one.
+	CondOf    string `json:"cond_of,omitempty"`
+	CondCount int    `json:"cond_count,omitempty"`
+	CondNth   int    `json:"cond_nth,omitempty"`
+	// ArgOf: translate only argument Arg of the Nth (0-based, source order) call of Callee.
+	ArgOf *ArgOf `json:"arg_of,omitempty"`
+}
+
+type ArgOf struct {
+	Callee string `json:"callee"`
+	Nth    int    `json:"nth"`
+	Arg    int    `json:"arg"`
 }
 
 type CallFact struct {
@@ -67,6 +99,10 @@ type tr struct {
 	written map[string]bool // field paths written
 	funcs   map[string]string
 	recv    string
+	info    map[string]*fnInfo // translated functions callable from later targets
+	dir     string             // package directory (for constants)
+	flat    int                // >0 while a continuation is being duplicated (early returns)
+	used    map[string]int     // exprs / skip entries that were hit
 }
 
 func fail(format string, a ...any) {
@@ -80,6 +116,9 @@ func leanType(gt string) string {
 	case "int", "int64", "uint64", "time.Duration", "Duration":
 		return "Int"
 	}
+	if isEnum(gt) {
+		return "Int"
+	}
 	fail("unsupported type %q", gt)
 	return ""
 }
@@ -89,12 +128,17 @@ func supported(gt string) bool {
 	case "bool", "int", "int64", "uint64", "time.Duration", "Duration":
 		return true
 	}
-	return false
+	return isEnum(gt)
 }
+
+func isEnum(gt string) bool { return strings.HasPrefix(gt, "enum:") }
 
 func isU64(gt string) bool { return gt == "uint64" }
 
 func (x *tr) text(n ast.Node) string {
+	if !n.Pos().IsValid() || !n.End().IsValid() {
+		return "<desugared switch>"
+	}
 	return string(x.src[x.fset.Position(n.Pos()).Offset:x.fset.Position(n.End()).Offset])
 }
 
@@ -138,6 +182,9 @@ func (x *tr) useVar(path string) (string, string) {
 		return leanName(path), ty
 	}
 	ty, ok := x.t.Types[path]
+	if base, isNN := strings.CutSuffix(path, ".notnil"); !ok && isNN && x.t.Types[base] == "ptr" {
+		ty, ok = "bool", true
+	}
 	if !ok {
 		fail("%s: unknown type for %q (add to types)", x.t.Func, path)
 	}
@@ -149,6 +196,9 @@ func (x *tr) useVar(path string) (string, string) {
 
 // expr returns (lean, gotype). gotype "" = untyped constant.
 func (x *tr) expr(e ast.Expr) (string, string) {
+	if s, t, ok := x.opaqueExpr(e); ok {
+		return s, t
+	}
 	switch v := e.(type) {
 	case *ast.BasicLit:
 		if v.Kind != token.INT {
@@ -164,6 +214,13 @@ func (x *tr) expr(e ast.Expr) (string, string) {
 		}
 		if c, ok := x.t.Consts[v.Name]; ok {
 			return "(" + c + " : Int)", ""
+		}
+		if _, local := x.types[v.Name]; !local {
+			if _, typed := x.t.Types[v.Name]; !typed {
+				if c, ok := goConst(x.dir, v.Name); ok {
+					return "(" + c + " : Int)", ""
+				}
+			}
 		}
 		return x.useVar(v.Name)
 	case *ast.SelectorExpr:
@@ -181,6 +238,9 @@ func (x *tr) expr(e ast.Expr) (string, string) {
 		case token.NOT:
 			return "(!" + s + ")", "bool"
 		case token.SUB:
+			if isEnum(t) || t == "bool" {
+				fail("%s: arithmetic on %s", x.t.Func, t)
+			}
 			if isU64(t) {
 				return "(u64 (-" + s + "))", t
 			}
@@ -188,6 +248,9 @@ func (x *tr) expr(e ast.Expr) (string, string) {
 		}
 		fail("%s: unsupported unary %s", x.t.Func, v.Op)
 	case *ast.BinaryExpr:
+		if s, ok := x.nilCompare(v); ok {
+			return s, "bool"
+		}
 		a, ta := x.expr(v.X)
 		b, tb := x.expr(v.Y)
 		ty := ta
@@ -202,6 +265,12 @@ func (x *tr) expr(e ast.Expr) (string, string) {
 				return "(u64 " + s + ")"
 			}
 			return s
+		}
+		switch v.Op {
+		case token.ADD, token.SUB, token.MUL, token.QUO, token.REM:
+			if isEnum(ty) || ty == "bool" {
+				fail("%s: arithmetic on %s in %s", x.t.Func, ty, x.text(v))
+			}
 		}
 		switch v.Op {
 		case token.ADD:
@@ -265,13 +334,8 @@ func (x *tr) expr(e ast.Expr) (string, string) {
 			}
 			return "(" + fn + " " + a + " " + b + ")", ty
 		}
-		if ln, ok := x.funcs[fn]; ok {
-			parts := []string{ln}
-			for _, a := range v.Args {
-				s, _ := x.expr(a)
-				parts = append(parts, s)
-			}
-			return "(" + strings.Join(parts, " ") + ")", x.funcs[fn+"#ret"]
+		if fi, ok := x.info[fn]; ok {
+			return x.call(fi, v), fi.ret
 		}
 		fail("%s: call to untranslated function %s", x.t.Func, fn)
 	}
@@ -308,6 +372,8 @@ func (x *tr) assigned(stmts []ast.Stmt, out map[string]bool) {
 			}
 		case *ast.BlockStmt:
 			x.assigned(v.List, out)
+		case *ast.SwitchStmt:
+			x.assigned(x.desugarSwitch(v), out)
 		}
 	}
 }
@@ -441,14 +507,20 @@ func (x *tr) stmts(list []ast.Stmt, ind string, end func(ind string) string) str
 		return end(ind)
 	}
 	s, rest := list[0], list[1:]
+	if x.skipped(s) {
+		return x.stmts(rest, ind, end)
+	}
 	if x.onlyDefinesOpaque(s) {
-		for _, o := range x.t.Opaque {
-			x.useVar(o)
-		}
+		x.registerOpaque()
 		return x.stmts(rest, ind, end)
 	}
 	switch v := s.(type) {
+	case *ast.SwitchStmt:
+		return x.stmts(append(x.desugarSwitch(v), rest...), ind, end)
 	case *ast.ReturnStmt:
+		if code, ok := x.returnCode(v); ok {
+			return ind + x.finalResult(code)
+		}
 		if len(v.Results) != 1 {
 			fail("%s: return with %d results", x.t.Func, len(v.Results))
 		}
@@ -482,6 +554,7 @@ func (x *tr) stmts(list []ast.Stmt, ind string, end func(ind string) string) str
 					ty = "int"
 				}
 				leanType(ty)
+				x.noShadow(n.Name)
 				x.types[n.Name] = ty
 				out += ind + "let " + leanName(n.Name) + " := " + val + "\n"
 			}
@@ -501,6 +574,7 @@ func (x *tr) stmts(list []ast.Stmt, ind string, end func(ind string) string) str
 			if rt == "" {
 				rt = "int"
 			}
+			x.noShadow(p)
 			x.types[p] = rt
 			name, ty = leanName(p), rt
 		} else {
@@ -514,6 +588,13 @@ func (x *tr) stmts(list []ast.Stmt, ind string, end func(ind string) string) str
 				return "(u64 " + s + ")"
 			}
 			return s
+		}
+		switch v.Tok {
+		case token.DEFINE, token.ASSIGN:
+		case token.ADD_ASSIGN, token.SUB_ASSIGN, token.MUL_ASSIGN, token.QUO_ASSIGN:
+			if isEnum(ty) || ty == "bool" {
+				fail("%s: arithmetic on %s in %s", x.t.Func, ty, x.text(v))
+			}
 		}
 		switch v.Tok {
 		case token.DEFINE, token.ASSIGN:
@@ -531,7 +612,10 @@ func (x *tr) stmts(list []ast.Stmt, ind string, end func(ind string) string) str
 		return ind + "let " + name + " := " + rhs + "\n" + x.stmts(rest, ind, end)
 	case *ast.IfStmt:
 		if v.Init != nil {
-			fail("%s: unsupported if-init %s", x.t.Func, x.text(v.Init))
+			if !x.onlyDefinesOpaque(v.Init) {
+				fail("%s: unsupported if-init %s", x.t.Func, x.text(v.Init))
+			}
+			x.registerOpaque()
 		}
 		cond, _ := x.expr(v.Cond)
 		var el []ast.Stmt
@@ -592,7 +676,19 @@ func (x *tr) stmts(list []ast.Stmt, ind string, end func(ind string) string) str
 			}
 			return ind + "if " + cond + " then\n" + thenS + "\n" + ind + "else\n" + elseS
 		}
-		fail("%s: unsupported mixed return/assign if: %s", x.t.Func, x.text(v.Cond))
+		// early return in only some branches: the continuation is duplicated into both branches
+		x.flat++
+		saved := x.snapshotTypes()
+		cont := func(i string) string {
+			x.restoreTypes(saved)
+			return x.stmts(rest, i, end)
+		}
+		thenS := x.stmts(v.Body.List, ind+"  ", cont)
+		x.restoreTypes(saved)
+		elseS := x.stmts(el, ind+"  ", cont)
+		x.restoreTypes(saved)
+		x.flat--
+		return ind + "if " + cond + " then\n" + thenS + "\n" + ind + "else\n" + elseS
 	case *ast.BlockStmt:
 		return x.stmts(append(append([]ast.Stmt{}, v.List...), rest...), ind, end)
 	case *ast.ExprStmt:
@@ -643,6 +739,12 @@ func findFunc(f *ast.File, name string) *ast.FuncDecl {
 			if s, ok := t.(*ast.StarExpr); ok {
 				t = s.X
 			}
+			switch g := t.(type) { // generic receiver: T[A] / T[A, B]
+			case *ast.IndexExpr:
+				t = g.X
+			case *ast.IndexListExpr:
+				t = g.X
+			}
 			if id, ok := t.(*ast.Ident); ok && id.Name == recv {
 				return fd
 			}
@@ -675,6 +777,7 @@ func main() {
 	}
 	out.WriteString("import F3.Model.GoInt\nnamespace " + ns + "\nopen F3.GoInt\n\n")
 	funcs := map[string]string{}
+	info := map[string]*fnInfo{}
 	var errs []string
 	for _, t := range cfg.Targets {
 		func() {
@@ -697,9 +800,19 @@ func main() {
 			if fd == nil {
 				fail("function %s not found in %s", t.Func, t.File)
 			}
-			x := &tr{fset: fset, src: src, t: t, types: map[string]string{}, ptype: map[string]string{}, written: map[string]bool{}, funcs: funcs}
+			if t.Types == nil {
+				t.Types = map[string]string{}
+			}
+			x := &tr{fset: fset, src: src, t: t, types: map[string]string{}, ptype: map[string]string{}, written: map[string]bool{}, funcs: funcs,
+				info: info, dir: filepath.Dir(path), used: map[string]int{}}
 			body := fd.Body.List
-			if t.FromMarker != "" {
+			sliced := t.FromMarker != "" || t.CondOf != "" || t.ArgOf != nil
+			var single ast.Expr // cond_of / arg_of: one expression instead of a body
+			if t.CondOf != "" {
+				single = x.findIfCond(fd, t.CondOf, max(t.CondCount, 1), t.CondNth)
+			} else if t.ArgOf != nil {
+				single = x.findCallArg(fd, *t.ArgOf)
+			} else if t.FromMarker != "" {
 				sel := []ast.Stmt{}
 				var lists [][]ast.Stmt
 				ast.Inspect(fd.Body, func(n ast.Node) bool {
@@ -748,10 +861,22 @@ func main() {
 					}
 				}
 			}
-			bodyLean := x.stmts(body, "  ", func(i string) string { return i + x.finalResult("") })
+			var bodyLean string
+			if single != nil {
+				e, _ := x.expr(single)
+				bodyLean = "  " + e
+			} else {
+				bodyLean = x.stmts(body, "  ", func(i string) string {
+					if t.End != "" {
+						return i + x.finalResult("("+t.End+" : Int)")
+					}
+					return i + x.finalResult("")
+				})
+			}
+			x.checkUsed()
 			// parameters: declared first (in order), then discovered (sorted for stability)
 			declared := 0
-			if t.FromMarker == "" {
+			if !sliced {
 				for _, fl := range fd.Type.Params.List {
 					if supported(x.text(fl.Type)) {
 						declared += len(fl.Names)
@@ -777,6 +902,17 @@ func main() {
 				ret = x.text(fd.Type.Results.List[0].Type)
 			}
 			funcs[key+"#ret"] = ret
+			if !sliced {
+				fi := &fnInfo{lean: t.Lean, ret: ret, ordered: ordered, formal: map[string]int{}}
+				k := 0
+				for _, fl := range fd.Type.Params.List {
+					for _, n := range fl.Names {
+						fi.formal[n.Name] = k
+						k++
+					}
+				}
+				info[key] = fi
+			}
 		}()
 	}
 	// call facts
